@@ -12,7 +12,7 @@ use serde_json::{json, Value};
 use stats_ci::mean::Arithmetic;
 use stats_ci::{Interval, MeanCI, StatisticsOps};
 
-pub const STYLES: [&str; 6] = ["ci", "trait_StatisticsOps_ci", "trait_MeanCI_ci", "from_iter+ci_mean", "new+extend_chunks+ci_mean", "append_loop+ci_mean"];
+pub const STYLES: [&str; 8] = ["ci", "trait_StatisticsOps_ci", "trait_MeanCI_ci", "from_iter+ci_mean", "new+extend_chunks+ci_mean", "append_loop+ci_mean", "ci(sparse container)", "from_iter+extend(sparse container)"];
 
 #[derive(Clone, Debug, Serialize, Deserialize)]
 pub struct Case {
@@ -51,6 +51,20 @@ pub fn arith_style<F: Fl>(style: u8, conf: &Conf, data: &Vec<F>, cuts: &[u16]) -
                 let v: Vec<F> = chunk.to_vec();
                 StatisticsOps::extend(&mut s, &v)?;
             }
+            let st = if data.len() >= 2 { Some(stats_of(&s)) } else { None };
+            s.ci_mean(c).map(|i| (i, st))
+        }
+        6 => {
+            // a container whose iterator has a loose size_hint
+            let sp = gen::sparse(data, cuts.len() as u64 * 31 + data.len() as u64, 1 + cuts.len());
+            Arithmetic::<F>::ci(c, &sp).map(|i| (i, None))
+        }
+        7 => {
+            let half = data.len() / 2;
+            let sp1 = gen::sparse(&data[..half], 7 + data.len() as u64, 2);
+            let sp2 = gen::sparse(&data[half..], 11 + data.len() as u64, 1 + cuts.len());
+            let mut s = <Arithmetic<F> as StatisticsOps<F>>::from_iter(&sp1)?;
+            StatisticsOps::extend(&mut s, &sp2)?;
             let st = if data.len() >= 2 { Some(stats_of(&s)) } else { None };
             s.ci_mean(c).map(|i| (i, st))
         }
@@ -180,7 +194,7 @@ pub fn case(c: &Case, obs: &mut Obs) -> PResult {
 }
 
 pub fn strategy(max_n: usize) -> impl Strategy<Value = Case> {
-    (gen::sample(max_n, true), gen::conf(), 0u8..6, gen::cuts(5)).prop_map(|(sample, conf, style, cuts)| Case { sample, conf, style, cuts })
+    (gen::sample(max_n, true), gen::conf(), 0u8..8, gen::cuts(5)).prop_map(|(sample, conf, style, cuts)| Case { sample, conf, style, cuts })
 }
 
 /// large samples around the t -> z switch (real arrays, not merged states)
@@ -196,7 +210,7 @@ fn large_case(f32_: bool, n: usize, idx: usize) -> impl Strategy<Value = Case> {
 
 pub fn run(run: &mut Run) {
     run.technique = "proptest random search with shrinking against an exact-arithmetic (big-integer) reference and an independent Student-t / normal quantile (Gauss–Legendre quadrature), with derived tolerances".into();
-    run.rule = "samples (n 2..5000 random, plus large n around 100 000; f32/f64; six shapes; conditioning kappa up to the domain limit, a small fraction beyond) x confidence (grid/uniform/log near the ends, three kinds) x six call styles; non-trivial = n >= 2, s > 0, inside the conditioning domain and tolerance < 0.1 % of the half-width; distinct = (type, n, kind, level, data hash)".into();
+    run.rule = "samples (n 2..5000 random, plus large n around 100 000; f32/f64; six shapes; conditioning kappa up to the domain limit, a small fraction beyond) x confidence (grid/uniform/log near the ends, three kinds) x eight call styles (two of them through a container whose iterator has a loose size_hint); non-trivial = n >= 2, s > 0, inside the conditioning domain and tolerance < 0.1 % of the half-width; distinct = (type, n, kind, level, data hash)".into();
     crate::meanref::selftest_into(run);
     let (cases, shards, max_n) = match run.tier {
         crate::engine::Tier::Quick => (200_000u32, 32usize, 2000usize),
@@ -229,6 +243,18 @@ pub fn run(run: &mut Run) {
             crate::engine::case_on(obs, "large", &c, case);
         }
     });
+    // constant samples on both sides of the switch (s = 0 must give a zero-width interval on either branch)
+    for (j, &n) in [99_999usize, 100_001, 150_000].iter().enumerate() {
+        for f32_ in [false, true] {
+            for kind in 0u8..3 {
+                let v = [3.5, 0.1, -123.456][j];
+                let v = if f32_ { (v as f32) as f64 } else { v };
+                let c = Case { sample: Sample { f32: f32_, shape: "constant".into(), data: crate::fl::xs(&vec![v; n]) }, conf: Conf::new(kind, [0.95, 0.3, 0.999][kind as usize]), style: [0u8, 3, 5][kind as usize], cuts: vec![] };
+                run.case("large", &c, case);
+            }
+        }
+    }
+    run.require_class("constant-data");
     for t in ["f32", "f64"] {
         for b in ["n2-9", "n10-100", "n101-5000", "n>=100000"] {
             for k in ["two", "upper", "lower"] {
